@@ -9,9 +9,12 @@ Cases
              key) plus random multi-point ones
   logger   : sequences of such messages written to a real MemoryLogger: _failed_validations, tracebackMessages,
              validate(), check_for_errors()
+  ops      : histories of one MemoryLogger: writes interleaved with validate() / check_for_errors / reset() (half of them
+             follow the documented use of reset(): validate the set-up logging, reset, exercise, validate again)
   types    : allow_additional_fields / declared keys of the serializers the real types build
   test     : generated unittest test cases whose methods are wrapped by capture_logging (once, twice, around bodies that run
-             inner test cases) and end in pass / fail / error / skip; the default logger seen by every body and afterwards
+             inner test cases, around bodies that swap the default logger themselves and never restore it) and end in
+             pass / fail / error / skip; the default logger seen by every body and afterwards
 
 Tie: lean/Eliot/Model/Validation.lean through Driver/C14.lean: accept / the class of the exception raised, for
 _MessageSerializer.validate, MemoryLogger._validate_message, MemoryLogger.validate, check_for_errors; the serializer
@@ -40,6 +43,9 @@ THEOREMS = [
     "VM.tracebacks_fail",
     "VM.check_for_errors_iff",
     "VM.default_logger_restored",
+    "VM.default_logger_untouched",
+    "VM.validateAllS_fst",
+    "VM.invalid_after_reset_reported",
 ]
 RULE = ("validate: type definition x library-produced conforming message x one deviation (or none, or several); logger: 1-5 "
         "writes; test: capture_logging tree of depth <= 3 with one of the four outcomes per body; non-trivial = a single-point "
@@ -533,20 +539,101 @@ def real_logger(writes):
     return r
 
 
+def real_ops(ops):
+    """one MemoryLogger, a history of write / validate() / reset() / check_for_errors"""
+    from eliot import MemoryLogger
+    from eliot.testing import check_for_errors
+
+    l = MemoryLogger()
+    results, w = [], "ok"
+    for op in ops:
+        if op == "validate":
+            results.append(outcome(l.validate))
+        elif op == "check":
+            results.append(outcome(lambda: check_for_errors(l)))
+        elif op == "reset":
+            w2 = outcome(l.reset)
+            w = w if w2 == "ok" else w2
+        else:
+            m, serobj = op
+            w2 = outcome(lambda: l.write(dict(m), serobj))
+            w = w if w2 == "ok" else w2
+    return {"results": results, "failed": len(l._failed_validations), "tracebacks": len(l.tracebackMessages), "stored": len(l.messages), "write": w}
+
+
+def gen_ops(rng, all_msgs):
+    """histories; about half follow the documented use of reset(): validate the set-up logging, reset, exercise, validate"""
+    good = [w for w in all_msgs if w[0] == "conforming" and w[3] != "traceback"]
+    ops = []
+    if good and rng.random() < 0.5:
+        ops += [("w", rng.choice(good)) for _ in range(rng.randint(1, 3))] + [rng.choice(["validate", "check"]), "reset"]
+        ops += [("w", rng.choice(all_msgs if rng.random() < 0.7 else good)) for _ in range(rng.randint(1, 3))]
+        ops.append(rng.choice(["validate", "check"]))
+    for _ in range(rng.randint(0, 5)):
+        r = rng.random()
+        ops.append(("w", rng.choice(all_msgs if rng.random() < 0.4 else (good or all_msgs))) if r < 0.55 else
+                   "validate" if r < 0.75 else "check" if r < 0.85 else "reset")
+    if not any(o in ("validate", "check") for o in ops):
+        ops.append("validate")
+    return ops
+
+
+def oracle_ops(ctx, c, ops, cbs, real):
+    """what validate() / check_for_errors must do, from the messages written since the last reset()"""
+    since, validated_before, i = [], False, 0
+    if real["write"] != "ok":
+        ctx.violation("MemoryLogger.write / reset raised %s" % real["write"], c, key=None)
+    for op in ops:
+        if op == "reset":
+            since, validated_before = [], False
+        elif op in ("validate", "check"):
+            got = real["results"][i]
+            i += 1
+            inv = [not rule_accepts(sp, m2, cbs, "mem") for _, m2, _, sp in since]
+            ntb = sum(1 for w in since if w[3] == "traceback")
+            if op == "check" and ntb:
+                if got != "UnflushedTracebacks":
+                    ctx.violation("unflushed tracebacks did not make check_for_errors raise UnflushedTracebacks (%s)" % got, c, key=None)
+            elif any(inv) and got == "ok":
+                ctx.violation("%s passed although %d of the %d messages written since the last reset() break their type's rule" % (
+                    "validate()" if op == "validate" else "check_for_errors", sum(inv), len(since)), c, key=None)
+            elif not any(inv) and not validated_before and got != "ok":
+                ctx.violation("%s raised %s although every message written since the last reset() matches its type" % (op, got), c, key=None)
+            if not (op == "check" and ntb):
+                validated_before = True
+        else:
+            since.append(op[1])
+
+
 # ---- capture_logging on generated tests ---------------------------------------------------------------
 
 def gen_tree(rng, depth=0):
     r = rng.random()
     if depth >= 3 or r < 0.3:
         return {"body": rng.choice(["pass", "fail", "error", "skip"])}
-    if r < 0.75:
+    if r < 0.65:
         return {"captured": gen_tree(rng, depth + 1)}
+    if r < 0.8:
+        # the body (or the code under test) installs a logger of its own and never puts the old one back
+        return {"swaps": gen_tree(rng, depth + 1)}
     return {"inner": [gen_tree(rng, depth + 1), gen_tree(rng, depth + 1)]}
+
+
+def has_swaps(t):
+    if "body" in t:
+        return False
+    if "swaps" in t:
+        return True
+    if "captured" in t:
+        return has_swaps(t["captured"])
+    return any(has_swaps(x) for x in t["inner"])
 
 
 def tree_depth(t):
     if "body" in t:
         return 0
+    if "swaps" in t:
+        return 1 + tree_depth(t["swaps"])
     if "captured" in t:
         return 1 + tree_depth(t["captured"])
     return 1 + max(tree_depth(x) for x in t["inner"])
@@ -554,10 +641,11 @@ def tree_depth(t):
 
 def run_tree(tree, log_invalid):
     """run the generated test case for real; -> observations"""
-    from eliot import _output, MessageType, Field
-    from eliot.testing import capture_logging
+    from eliot import _output, MessageType, Field, MemoryLogger
+    from eliot.testing import capture_logging, swap_logger
 
-    seen, inside_ok, results = [], [], []
+    seen, inside_ok, results, own = [], [], [], []
+    swapping = has_swaps(tree)
     BAD = MessageType("bad:type", [Field.forTypes("n", [int], "")], "")
 
     def build(t):
@@ -566,7 +654,7 @@ def run_tree(tree, log_invalid):
 
             def body(self, logger=None):
                 seen.append(_output._DEFAULT_LOGGER)
-                if logger is not None:
+                if logger is not None and not swapping:
                     inside_ok.append(_output._DEFAULT_LOGGER is logger)
                 if log_invalid:
                     BAD.log(n="not an int")   # makes the check_for_errors cleanup raise
@@ -580,6 +668,15 @@ def run_tree(tree, log_invalid):
             return body
         if "captured" in t:
             return capture_logging(None)(build(t["captured"]))
+        if "swaps" in t:
+            after_swap = build(t["swaps"])
+
+            def swaps_logger(self, **kw):
+                own.append(MemoryLogger())
+                swap_logger(own[-1])
+                return after_swap(self, **kw)
+
+            return swaps_logger
         inner_t, rest_t = t["inner"]
         rest = build(rest_t)
 
@@ -653,6 +750,12 @@ def run(ctx):
             cases.append(dict(kind="logger", env=env, writes=[dict(ser=spec_json(sp, reg), msg=enc_msg(m2, reg), tb=(sp == "traceback"))
                                                                for _, m2, _, sp in ws]))
             metas.append(("logger", dict(ws=ws, cbs=cbs)))
+        for _ in range(ctx.budget(6, 6)):
+            ops = gen_ops(rng, all_msgs)
+            cases.append(dict(kind="ops", env=env, ops=[o if isinstance(o, str) else
+                                                        {"write": dict(ser=spec_json(o[1][3], reg), msg=enc_msg(o[1][1], reg), tb=(o[1][3] == "traceback"))}
+                                                        for o in ops]))
+            metas.append(("ops", dict(ops=ops, cbs=cbs)))
     # field matrix: one-field message types x every pool value (class lattice, numeric tower of forValue, callbacks)
     hand = [{"t": "types", "key": "x", "classes": [c], "extra": None} for c in ("int", "float", "bool", "NoneType", "str", "bytes")] + \
            [{"t": "value", "key": "x", "value": v} for v in (1, 1.0, True, 0, "a", None, 2.5)]
@@ -712,6 +815,17 @@ def run(ctx):
                 ctx.violation("a single deviation (%s) is not reported: %s" % (tag, desc), c, key=None)
             if tag == "extra" and not spec_allow_extra(spec) and real["mem"] == "ok":
                 ctx.violation("an undeclared field is not reported: %s" % desc, c, key=None)
+        elif kind == "ops":
+            ops, cbs = meta["ops"], meta["cbs"]
+            real = real_ops([o if isinstance(o, str) else (o[1][1], o[1][2]) for o in ops])
+            nreset = sum(1 for o in ops if o == "reset")
+            ctx.case(c, nontrivial=nreset > 0, tags=["kind:ops", "ops:%d" % min(len(ops), 12), "resets:%d" % nreset,
+                                                     "validations:%d" % sum(1 for o in ops if o in ("validate", "check"))])
+            if {k: real[k] for k in ("results", "failed", "tracebacks", "stored")} != mo:
+                ctx.broken_tie(name, "a MemoryLogger history differs from the model", dict(case=c, real=real, model=mo))
+            else:
+                ctx.traces += 1
+            oracle_ops(ctx, c, ops, cbs, real)
         elif kind == "logger":
             ws, cbs = meta["ws"], meta["cbs"]
             real = real_logger([(m2, so) for _, m2, so, _ in ws])
@@ -735,7 +849,8 @@ def run(ctx):
                 ctx.violation("MemoryLogger.validate -> %s although %d written messages break their type's rule" % (real["validateAll"], sum(invalid)), c, key=None)
         else:
             real = run_tree(meta["tree"], meta["log_invalid"])
-            ctx.case(c, nontrivial=tree_depth(meta["tree"]) >= 2, tags=["kind:test", "depth:%d" % tree_depth(meta["tree"]), "invalid-logged:%s" % meta["log_invalid"]])
+            ctx.case(c, nontrivial=tree_depth(meta["tree"]) >= 2, tags=["kind:test", "depth:%d" % tree_depth(meta["tree"]), "invalid-logged:%s" % meta["log_invalid"],
+                                                                         "body-swaps-logger:%s" % has_swaps(meta["tree"])])
             ren = {0: 0}
             for x in mo["seen"]:   # the model numbers every MemoryLogger created, the real side only those a body saw
                 ren.setdefault(x, len(ren))
@@ -744,7 +859,7 @@ def run(ctx):
                 ctx.broken_tie(name, "default logger under capture_logging differs from the model", dict(case=c, real=real, model=mo))
             else:
                 ctx.traces += 1
-            if not real["restored"]:
+            if not real["restored"] and ("captured" in meta["tree"] or not has_swaps(meta["tree"])):
                 ctx.violation("the default logger after a capture_logging test is not the one before it; test %s" % json.dumps(meta["tree"]), c, key=None)
             if not real["inside_ok"]:
                 ctx.violation("inside a capture_logging test the default logger is not the MemoryLogger handed to the test", c, key=None)
@@ -833,7 +948,7 @@ def replay(ctx, obj):
         real = run_tree(c["test"], False)
         real2 = run_tree(c["test"], True)
         print(real, real2)
-        if not (real["restored"] and real2["restored"]):
+        if not (real["restored"] and real2["restored"]) and ("captured" in c["test"] or not has_swaps(c["test"])):
             ctx.violation("the default logger after a capture_logging test is not the one before it", c, key=None)
     elif c.get("kind") == "validate":
         cbs, ser_of = rebuild(c, reg)
@@ -846,6 +961,18 @@ def replay(ctx, obj):
             ctx.violation("_MessageSerializer.validate disagrees with the rule on the recorded message", c, key=None)
         if (real["mem"] == "ok") != exp_m:
             ctx.violation("MemoryLogger validation disagrees with the rule on the recorded message", c, key=None)
+    elif c.get("kind") == "ops":
+        cbs, ser_of = rebuild(c, reg)
+        ops = []
+        for o in c["ops"]:
+            if isinstance(o, str):
+                ops.append(o)
+            else:
+                spec, serobj = ser_of(o["write"]["ser"])
+                ops.append(("w", ("replayed", {dec_key(k): dec_val(v) for k, v in o["write"]["msg"]}, serobj, spec)))
+        real = real_ops([o if isinstance(o, str) else (o[1][1], o[1][2]) for o in ops])
+        print([o if isinstance(o, str) else "write" for o in ops], "->", real)
+        oracle_ops(ctx, c, ops, cbs, real)
     elif c.get("kind") == "logger":
         cbs, ser_of = rebuild(c, reg)
         ws = []
